@@ -46,6 +46,21 @@ def main():
         elif k == 'write':
             a[act[1]] = act[2]
             outs.append([0])
+        elif k == 'hide':
+            dp = os.path.join(job['path'], 'arrayvalues.bin')
+            os.rename(dp, dp + '.away')
+            try:
+                outs.append([3, int(a[0])])
+            except Exception:
+                outs.append([4])
+            finally:
+                os.rename(dp + '.away', dp)
+        elif k == 'readerr':
+            try:
+                a[len(a) + 5]
+                outs.append([3, 0])
+            except IndexError:
+                outs.append([4])
         elif k == 'grow':
             n = len(a)           # element i holds i
             a.append(np.arange(n, n + act[1], dtype='int64'))
